@@ -304,19 +304,52 @@ Definition abs_obj (h : heap) (a : nat) : option jv :=
   | None => None
   end.
 
+(* the value with every slice header extended to its CAPACITY (Go: v[:cap(v)], recursively): the hidden cells
+   of the backing arrays reachable from the result, which a later in-place growth would expose *)
+Fixpoint abs_full (fuel : nat) (h : heap) (v : hval) : option jv :=
+  match fuel with
+  | O => None
+  | S f =>
+      match v with
+      | HNull => Some JNull
+      | HBool b => Some (JBool b)
+      | HNum z => Some (JNum z)
+      | HStr s => Some (JStr s)
+      | HEmpty => Some JEmpty
+      | HNilArr => Some (JArr [])
+      | HArr a off len cap =>
+          (fix go (l : list hval) : option jv :=
+             match l with
+             | [] => Some (JArr [])
+             | x :: r => match abs_full f h x, go r with
+                         | Some jx, Some (JArr jr) => Some (JArr (jx :: jr))
+                         | _, _ => None end
+             end) (firstn cap (skipn off (cells_of h a)))
+      | HMap a =>
+          (fix go (m : list (key * hval)) : option jv :=
+             match m with
+             | [] => Some (JObj [])
+             | (k, x) :: r => match abs_full f h x, go r with
+                              | Some jx, Some (JObj jr) => Some (JObj ((k, jx) :: jr))
+                              | _, _ => None end
+             end) (kvs_of h a)
+      end
+  end.
+
 Definition enc_abs (r : option jv) : sexp := match r with Some v => enc_jv v | None => A "cyc" end.
 
 Definition dec_abs (e : sexp) : option (option jv) :=
   if atom_is "cyc" e then Some None else option_map Some (dec_jv e).
 
-Definition run_heap (spec : bool) (e : sexp) : sexp :=
-  match e with
-  | SList [_; SList (_ :: objs); SList [_; root]; SList [_; al]; SList (_ :: ops); SList [_; fin; SList (_ :: pre)]] =>
+Definition run_heap_core (spec : bool) (objs : list sexp) (root al : sexp) (ops : list sexp) (fin : sexp)
+  (pre : list sexp) (full : option sexp) : sexp :=
       match dec_list dec_obj objs, dec_cell [] root, dec_list dec_op ops with
       | Some h, Some s, Some ops =>
           let shared := atom_is "on" al in
           let n0 := List.length h in
           let pre0 := map (abs_obj h) (seq 0 n0) in
+          (* the model run (not needed under value semantics) *)
+          let ro := if spec then None else run_ops current h (Some []) shared s ops in
           (* expected: final value and the abstraction of every pre-existing object *)
           let expected : option (option jv) * list (option jv) :=
             if spec then
@@ -324,15 +357,33 @@ Definition run_heap (spec : bool) (e : sexp) : sexp :=
                | Some j => match run_ops_v j ops (abs fuel h) with Some r => Some (Some r) | None => None end
                | None => None end, pre0)
             else
-              match run_ops current h (Some []) shared s ops with
+              match ro with
               | Some (h', u) => (Some (abs fuel h' u), map (abs_obj h') (seq 0 n0))
               | None => (None, [])
               end in
+          (* the hidden cells: the result with every header extended to its capacity (model mode only) *)
+          let full_ok : bool :=
+            if spec then true else
+            match full with
+            | None => true
+            | Some fx =>
+                match ro with
+                | Some (h', u) =>
+                    match dec_abs fx, abs_full fuel h' u with
+                    | Some (Some x), Some y => jv_eqb x y
+                    | Some None, None => true
+                    | _, _ => false end
+                | None => atom_is "err" fx
+                end
+            end in
+          let full_exp (_ : unit) : sexp :=
+            match ro with
+            | Some (h', u) => enc_abs (abs_full fuel h' u) | None => A "err" end in
           (* observed *)
           let obs_fin : option (option (option jv)) :=
             if atom_is "err" fin then Some None else option_map Some (dec_abs fin) in
           match obs_fin, fst expected with
-          | Some None, None => A "ok"
+          | Some None, None => if full_ok then A "ok" else SList [A "bad"; A "full"; full_exp tt]
           | Some None, Some m => SList [A "bad"; A "final"; enc_abs m]
           | Some (Some o), Some m =>
               let okf := match o, m with
@@ -345,7 +396,7 @@ Definition run_heap (spec : bool) (e : sexp) : sexp :=
                 | Some ps =>
                     (fix cmp (i : nat) (os ms : list (option jv)) : sexp :=
                        match os, ms with
-                       | [], [] => A "ok"
+                       | [], [] => if full_ok then A "ok" else SList [A "bad"; A "full"; full_exp tt]
                        | o :: os', m :: ms' =>
                            let same := match o, m with
                                        | Some x, Some y => jv_eqb x y | None, None => true | _, _ => false end in
@@ -359,7 +410,15 @@ Definition run_heap (spec : bool) (e : sexp) : sexp :=
           | _, _ => A "undecodable"
           end
       | _, _, _ => A "undecodable"
-      end
+      end.
+
+Definition run_heap (spec : bool) (e : sexp) : sexp :=
+  match e with
+  | SList [_; SList (_ :: objs); SList [_; root]; SList [_; al]; SList (_ :: ops); SList [_; fin; SList (_ :: pre)]] =>
+      run_heap_core spec objs root al ops fin pre None
+  | SList [_; SList (_ :: objs); SList [_; root]; SList [_; al]; SList (_ :: ops);
+           SList [_; fin; SList (_ :: pre); SList [_; full]]] =>
+      run_heap_core spec objs root al ops fin pre (Some full)
   | _ => A "undecodable"
   end.
 
